@@ -5,6 +5,7 @@ package rules
 import (
 	"go/token"
 	"go/types"
+	"strconv"
 	"strings"
 
 	"golang.org/x/tools/go/ssa"
@@ -70,6 +71,18 @@ func init() {
 	extendProp("C11", "(R11.15) refreshStatus writes status.observedReleasePlanHash only on the path where it is empty.", r8C11)
 	extendProp("C07", "(R7.14) the Rollout controller's workload event handler matches a workload to its Rollout by group, kind and name and never by API version (no comparison of whole GroupVersionKind values).", r8C07)
 	extendProp("C06", "(R6.10) RestoreStableService reaches its restore step only on the edge where the read of the stable Service returned nil; (R6.11) mutatingProtectionInvalid patches the Deployment (and answers 'invalid') only under IsNotFound(err) or a deletion timestamp of the webhook configuration — any other read error is returned.", r8C06)
+	extendProp("C03", "(R3.14) the Gateway provider's restore request (weight -1) reaches buildDesiredHTTPRoute from Finalise only: in EnsureRoutes every value the weight can take is nil (the step configures no weight) or points to a number computed from strategy.Traffic.", r9C03)
+	importProp("C13", "C03", map[string]string{"R3.14": "R13.11"}, "(R13.11 = C03 R3.14) a match step without a weight gets its match routes, not the restored route.")
+	extendProp("C13", "(R13.12) buildCanaryWeightHttpRoutes appends a rule that references the stable Service only after the step's split was written into it, for every weight including 0; (R13.13) the loops over the HTTPRoute's rules in the three builders of the desired rules are left by exhaustion only: every rule the user wrote is looked at and kept.", r9C13)
+	extendProp("C15", "(R15.14) in the custom provider the step's weight is absent only when strategy.Traffic is: every value computed from a configured traffic percentage, 0 included, is handed to the script.", func(c *Ctx) {
+		stepWeightNeverDropped(c, "R15.14", []string{"pkg/trafficrouting/network/customNetworkProvider"}, 1)
+	})
+	extendProp("C03", "(R3.15) in all three providers the step's weight is absent only when strategy.Traffic is (0% is a weight: the providers take an absent weight for 'match step' or, in the scripts, for -1).", func(c *Ctx) {
+		stepWeightNeverDropped(c, "R3.15", []string{""}, 3)
+	})
+	extendProp("C16", "(R16.15) in the packages that take apart what a script returned there is no unchecked type assertion on a value that came from the script; (R16.14) decodeValue sets every key of a JSON object as the Lua string it is: the key handed to the table setter is lua.LString of the ranged map key, never a number or a computed value ('1' and 1 are different keys to a script, and integer keys turn the table into a list on the way back).", r9C16)
+	extendProp("C15", "(R15.15) the script getLuaScript answers with is looked up under the reference's API group and kind together: every script it returns is computed from ref.APIVersion as well as from ref.Kind.", r9C15)
+	extendProp("C18", "(R18.13) finalizeTrafficRouting (the Rollout giving up its hold on a TrafficRouting object) answers nil only when the object is not found, does not carry the rollout's progressing finalizer, or the removal of that finalizer succeeded — whatever else is true of the object.", r9C18)
 	extendProp("C08", "(R8.10) both admission handlers answer 'this workload is not selected by the webhook configuration' only after every entry and rule was examined (or the entry's selector cannot be parsed): the first entry whose rule matches does not decide alone.", r6C08)
 }
 
@@ -321,6 +334,8 @@ func r6C09(c *Ctx) {
 			mayNil = true
 		}
 		if !mayNil {
+			// nothing to dereference: the obligation holds, and stays counted
+			c.Ob("R9.8", FuncName(site.Caller)+"#matches-are-the-steps-own", site.Instr.Pos(), true, "the weight handed on is never absent at this call", "")
 			continue
 		}
 		isOwn := func(v ssa.Value) bool {
@@ -2438,4 +2453,309 @@ func r8C06(c *Ctx) {
 	}
 	c.Ob("R6.11", "mutatingProtectionInvalid#only-when-gone", fn.Pos(), n > 0 && bad == "", "a failed read of the webhook configuration is an error, not 'the webhook is gone'",
 		ifs(bad != "", bad+": one transient read error hands a Deployment that is mid-release back to the native controller; nothing undoes that patch, the BatchRelease finds the Deployment 'out of our control', and the rollout waits in Upgrade for ever")+ifs(n == 0, "the patch of the Deployment strategy not found"))
+}
+
+// r9C03: R3.14 — inside the Gateway provider -1 means "restore"; a step never asks for that.
+func r9C03(c *Ctx) {
+	p := c.Prog
+	c.Rule("R3.14", "a step's weight for the Gateway provider is absent or computed from strategy.Traffic — never the restore request", 1)
+	build := p.Func("pkg/trafficrouting/network/gateway.gatewayController.buildDesiredHTTPRoute")
+	if build == nil {
+		c.Unresolved("R3.14", "gatewayController.buildDesiredHTTPRoute")
+		return
+	}
+	wi := -1
+	for i, par := range build.Params {
+		if par.Type().String() == "*int32" {
+			wi = i
+		}
+	}
+	if wi < 0 {
+		c.Unresolved("R3.14", "buildDesiredHTTPRoute(weight *int32)")
+		return
+	}
+	fromTraffic := func(v ssa.Value) bool {
+		return SliceHas(v, MField("Traffic")) || SliceHasDeep(v, MField("Traffic"))
+	}
+	for _, site := range p.Callers(build) {
+		if site.Args == nil || wi >= len(site.Args) || strings.HasSuffix(FuncName(site.Caller), ".Finalise") {
+			continue
+		}
+		bad := ""
+		for _, lf := range LeavesDeep(Forwarded(site.Args[wi]), site.Instr.Block()) {
+			if t := TermOf(lf.V); t.Op == "const" && t.Name == "nil" {
+				continue
+			}
+			var pointees []ssa.Value
+			switch x := lf.V.(type) {
+			case *ssa.Alloc:
+				for _, st := range AllocStoresOf(x) {
+					pointees = append(pointees, st.Val)
+				}
+			case *ssa.Call:
+				if g := x.Call.StaticCallee(); g != nil && g.Pkg != nil && (strings.HasSuffix(g.Pkg.Pkg.Path(), "k8s.io/utils/pointer") || strings.HasSuffix(g.Pkg.Pkg.Path(), "k8s.io/utils/ptr")) && len(x.Call.Args) == 1 {
+					pointees = append(pointees, x.Call.Args[0])
+				}
+			}
+			if len(pointees) == 0 {
+				bad = "the weight can be " + TermOf(lf.V).String() + ", which is neither nil nor a fresh pointer"
+				continue
+			}
+			for _, v := range pointees {
+				if !fromTraffic(v) {
+					bad = "the weight can point to " + TermOf(v).String() + ", which is not computed from strategy.Traffic: buildDesiredHTTPRoute takes -1 for Finalise's request and answers with the restored route — a match step without weight would lose its canary routes while the rollout goes on"
+				}
+			}
+		}
+		c.Ob("R3.14", FuncName(site.Caller)+"#weight-is-the-steps", site.Instr.Pos(), bad == "", "the weight handed to buildDesiredHTTPRoute outside Finalise", bad)
+	}
+}
+
+// r9C13: R13.13 — no rule of the route is dropped by leaving the rule loop early. (R13.12 is
+// decided next to R13.3 in c13.go.)
+func r9C13(c *Ctx) {
+	p := c.Prog
+	c.Rule("R13.13", "the builders of the desired HTTPRoute rules visit every rule of the route", 3)
+	gp := "pkg/trafficrouting/network/gateway.gatewayController."
+	for _, name := range []string{"buildCanaryHeaderHttpRoutes", "buildCanaryWeightHttpRoutes", "buildDesiredHTTPRoute"} {
+		fn := p.Func(gp + name)
+		if fn == nil {
+			c.Unresolved("R13.13", gp+name)
+			continue
+		}
+		bad := ""
+		loops := 0
+		for _, ret := range returnsOf(fn) {
+			switch loopExitKind(ret.Block()) {
+			case "mid-loop":
+				bad = "the return at " + p.Pos(ret.Pos()) + " is reached by leaving a loop from the middle (break / return inside the loop): the rules behind that point are not copied into the desired rules, so the route loses rules its owner wrote — and Finalise cannot bring them back"
+			case "exhausted":
+				loops++
+			}
+		}
+		c.Ob("R13.13", name+"#visits-every-rule", fn.Pos(), (loops > 0 || bad != "") && bad == "", "the rule loop ends by exhaustion only", bad+ifs(loops == 0 && bad == "", "no loop over the rules found in front of a return"))
+	}
+}
+
+// stepWeightNeverDropped: wherever a *int32 is either nil or a fresh pointer to a number scaled
+// from strategy.Traffic, the nil definitions are selected only where Traffic itself is nil.
+func stepWeightNeverDropped(c *Ctx, rule string, pkgs []string, floor int) {
+	p := c.Prog
+	c.Rule(rule, "a configured traffic percentage always yields a weight", floor)
+	isPtrOfTraffic := func(v ssa.Value) bool {
+		call, ok := v.(*ssa.Call)
+		if !ok {
+			return false
+		}
+		g := call.Call.StaticCallee()
+		if g == nil || g.Pkg == nil || !(strings.HasSuffix(g.Pkg.Pkg.Path(), "k8s.io/utils/pointer") || strings.HasSuffix(g.Pkg.Pkg.Path(), "k8s.io/utils/ptr")) || len(call.Call.Args) != 1 {
+			return false
+		}
+		return SliceHas(call.Call.Args[0], MField("Traffic"))
+	}
+	for _, fn := range p.RepoFuncs() {
+		in := false
+		for _, pk := range pkgs {
+			if fn.Pkg != nil && strings.HasSuffix(fn.Pkg.Pkg.Path(), pk) {
+				in = true
+			}
+		}
+		if !in {
+			continue
+		}
+		bad := ""
+		var at *ssa.Phi
+		for _, b := range fn.Blocks {
+			for _, ins := range b.Instrs {
+				ph, ok := ins.(*ssa.Phi)
+				if !ok || ph.Type().String() != "*int32" {
+					continue
+				}
+				lvs := Leaves(ph, ph.Block())
+				has := false
+				for _, lf := range lvs {
+					if isPtrOfTraffic(lf.V) {
+						has = true
+					}
+				}
+				if !has {
+					continue
+				}
+				if at == nil {
+					at = ph
+				}
+				for _, lf := range lvs {
+					if t := TermOf(lf.V); t.Op == "const" && t.Name == "nil" {
+						if !HasFact(lf.Facts, FNil(MField("Traffic"))) {
+							at = ph
+							bad = "the weight can stay absent on a path where strategy.Traffic is set: a legal percentage (\"0%\") is then treated like a step without weight — the scripts get -1, the Gateway provider builds no weight routes"
+						}
+					}
+				}
+			}
+		}
+		if at != nil {
+			c.Ob(rule, FuncName(fn)+"#weight-absent-only-without-traffic", at.Pos(), bad == "", "nil is chosen for the weight only where strategy.Traffic is nil", bad)
+		}
+	}
+}
+
+// r9C16: R16.14 — object keys cross the boundary as strings.
+func r9C16(c *Ctx) {
+	p := c.Prog
+	c.Rule("R16.14", "object keys are handed to the script as strings", 1)
+	dv := p.Func("pkg/util/luamanager.decodeValue")
+	if dv == nil {
+		c.Unresolved("R16.14", "luamanager.decodeValue")
+		return
+	}
+	n := 0
+	for _, fn := range samePkgClosure(p, dv) {
+		for _, ci := range AllCalls(fn) {
+			name := CalleeName(ci.Common())
+			if !strings.Contains(name, "gopher-lua.LTable.") {
+				continue
+			}
+			m := name[strings.LastIndex(name, ".")+1:]
+			switch m {
+			case "RawSet", "RawSetH", "RawSetString", "RawSetInt", "Insert", "ForceSet":
+			default:
+				continue
+			}
+			args := ci.Common().Args
+			if len(args) < 2 {
+				continue
+			}
+			n++
+			ok := false
+			why := ""
+			k := args[1]
+			if mi, isMI := k.(*ssa.MakeInterface); isMI {
+				k = mi.X
+			}
+			isRangeKey := func(v ssa.Value) bool {
+				ex, isEx := v.(*ssa.Extract)
+				if !isEx {
+					return false
+				}
+				_, isNext := ex.Tuple.(*ssa.Next)
+				return isNext && ex.Index == 1
+			}
+			switch x := k.(type) {
+			case *ssa.ChangeType:
+				ok = strings.HasSuffix(x.Type().String(), "gopher-lua.LString") && isRangeKey(x.X)
+			case *ssa.Convert:
+				ok = strings.HasSuffix(x.Type().String(), "gopher-lua.LString") && isRangeKey(x.X)
+			default:
+				ok = m == "RawSetString" && isRangeKey(k)
+			}
+			if !ok {
+				why = "the key handed to " + m + " is " + TermOf(args[1]).String() + ", not lua.LString of the ranged key: an object key that looks like a number reaches the script as a number (obj.annotations[\"2024\"] is nil there) and comes back as a list index"
+			}
+			c.Ob("R16.14", FuncName(fn)+"#key("+m+")", ci.Pos(), ok, "key of a decoded JSON object", why)
+		}
+	}
+	if n == 0 {
+		c.Ob("R16.14", "decodeValue#key", dv.Pos(), false, "table setter in the object case", "anchor not found")
+	}
+
+	// R16.15: what a script returned has the shape the script chose; Go code that takes it apart
+	// asserts types in the checked form only (x, ok := v.(T), or a type switch).
+	c.Rule("R16.15", "no unchecked type assertion on a value a script produced", 1)
+	fromScript := func(v ssa.Value) bool {
+		for x := range BackwardSlice(v) {
+			ts := x.Type().String()
+			if strings.Contains(ts, "customNetworkProvider.Data") || strings.Contains(ts, "gopher-lua.") {
+				return true
+			}
+		}
+		return false
+	}
+	total, inScope := 0, 0
+	var bad []string
+	var badPos token.Pos
+	for _, fn := range p.RepoFuncs() {
+		for _, b := range fn.Blocks {
+			for _, in := range b.Instrs {
+				ta, ok := in.(*ssa.TypeAssert)
+				if !ok || ta.CommaOk {
+					continue
+				}
+				total++
+				if fn.Pkg == nil || !(strings.HasSuffix(fn.Pkg.Pkg.Path(), "network/customNetworkProvider") || strings.HasSuffix(fn.Pkg.Pkg.Path(), "network/ingress") || strings.HasSuffix(fn.Pkg.Pkg.Path(), "util/luamanager")) {
+					continue
+				}
+				if !fromScript(ta.X) {
+					continue
+				}
+				inScope++
+				bad = append(bad, FuncName(fn)+" at "+p.Pos(ta.Pos())+": "+TermOf(ta.X).String()+".("+ta.AssertedType.String()+")")
+				badPos = ta.Pos()
+			}
+		}
+	}
+	// the matcher must see the unchecked assertions the repository has elsewhere (self-check of a rule whose expected count is zero)
+	c.Ob("R16.15", "matcher#sees-unchecked-assertions", dv.Pos(), total > 0, "unchecked type assertions are visible to the matcher ("+strconv.Itoa(total)+" in the repository)", ifs(total == 0, "no unchecked type assertion found anywhere: the matcher is broken"))
+	if len(bad) > 0 {
+		c.Ob("R16.15", "script-result#unchecked-assertion", badPos, false, "type assertions on script results are checked", strings.Join(bad, "; ")+": a script that returns another shape (no spec, an empty table — encoded as null —, a string) panics the reconcile worker instead of failing this one rollout")
+	}
+}
+
+// r9C15: R15.15 — a script belongs to group + kind.
+func r9C15(c *Ctx) {
+	p := c.Prog
+	c.Rule("R15.15", "a resource is rewritten by the script of its own group and kind", 2)
+	fn := p.Func("pkg/trafficrouting/network/customNetworkProvider.customController.getLuaScript")
+	if fn == nil {
+		c.Unresolved("R15.15", "customController.getLuaScript")
+		return
+	}
+	has := func(v ssa.Value, f string) bool { return SliceHas(v, MField(f)) || SliceHasDeep(v, MField(f)) }
+	for _, ret := range returnsOf(fn) {
+		if len(ret.Results) != 2 {
+			continue
+		}
+		for _, lf := range Leaves(ret.Results[0], ret.Block()) {
+			if t := TermOf(lf.V); t.Op == "const" {
+				continue
+			}
+			k, g := has(lf.V, "Kind"), has(lf.V, "APIVersion")
+			c.Ob("R15.15", "getLuaScript#script-of(group,kind)", ret.Pos(), k && g, "the script returned is looked up under group and kind",
+				ifs(!(k && g), "the script returned here is computed "+ifs(!k, "without ref.Kind")+ifs(!g, "without ref.APIVersion")+": two references of the same kind in different API groups (or the reverse) get one another's script, and the resource is rewritten by a script that is not its own"))
+		}
+	}
+}
+
+// r9C18: R18.13 — the Rollout's marker on a TrafficRouting is gone when the Rollout says so.
+func r9C18(c *Ctx) {
+	p := c.Prog
+	c.Rule("R18.13", "the progressing finalizer on a TrafficRouting is released before the Rollout reports it released", 1)
+	fn := p.Func("pkg/controller/rollout.RolloutReconciler.finalizeTrafficRouting")
+	if fn == nil {
+		c.Unresolved("R18.13", "RolloutReconciler.finalizeTrafficRouting")
+		return
+	}
+	anchored := false
+	for _, g := range samePkgClosure(p, fn) {
+		if len(CallsIn(g, "util.UpdateFinalizer")) > 0 {
+			anchored = true
+		}
+	}
+	if !anchored {
+		c.Unresolved("R18.13", "finalizeTrafficRouting: UpdateFinalizer(Remove, progressing finalizer)")
+		return
+	}
+	isErr := func(t *Term) bool { return t.V != nil && t.V.Type().String() == "error" }
+	isRet := func(in ssa.Instruction) bool { _, ok := in.(*ssa.Return); return ok }
+	reach, at := CanReach(Entry(fn), isRet, ReachOpts{CutEdge: func(b *ssa.BasicBlock, k int) bool {
+		return EdgeFactMatches(b, k, FTrue(MCall("errors.IsNotFound"))) ||
+			EdgeFactMatches(b, k, FFalse(MCall("controllerutil.ContainsFinalizer"))) ||
+			EdgeFactMatches(b, k, FNil(MResult("util.UpdateFinalizer", 0))) ||
+			EdgeFactMatches(b, k, FNotNil(isErr))
+	}})
+	detail := ""
+	if reach {
+		detail = "the return at " + p.Pos(at.Pos()) + " can be reached with a nil error although the TrafficRouting was found, may still carry progressing.rollouts.kruise.io/<rollout>, and no removal succeeded: the Rollout finishes its teardown and drops its own finalizer while its marker stays on the TrafficRouting, which can then never be deleted"
+	}
+	c.Ob("R18.13", "finalizeTrafficRouting#nil-means-released", fn.Pos(), !reach, "nil only for not-found / finalizer absent / removal succeeded", detail)
 }
